@@ -59,7 +59,7 @@ DENSITIES = {
 }
 DEFINITIONAL = {"t2eri_1", "t2eri_2", "t2eri_3", "t2eri_4", "t2eri_5",
                 "t2eri_6", "t2eri_7", "t2eri_A", "t2eri_B", "t2sq"}
-SLOW = {"t4_2", "t1_3", "t2_3", "p0_3_oo", "p0_3_ov", "p0_3_vv"}
+SLOW = {"t4_2", "p0_3_oo", "p0_3_ov", "p0_3_vv"}
 
 
 def real(e):
